@@ -273,33 +273,6 @@ Proof.
     + rewrite upd_nth_other by lia. now apply LC.
 Qed.
 
-Lemma scroll_rows {A} (ls : list (list A)) (bl : list A) v0 :
-  length ls = N.to_nat (h + s) -> v0 < h + s ->
-  forall i, i < h + s ->
-    nth (N.to_nat i) (firstn (N.to_nat v0) ls ++ skipn (S (N.to_nat v0)) ls ++ [bl]) [] =
-    if i <? v0 then nth (N.to_nat i) ls []
-    else if i <? h + s - 1 then nth (N.to_nat (i + 1)) ls [] else bl.
-Proof.
-  intros L Hv i Hi. rewrite nth_app3. rewrite firstn_length, skipn_length, L.
-  destruct (N.ltb_spec i v0) as [A0|A0].
-  - destruct (Nat.ltb_spec (N.to_nat i) (Nat.min (N.to_nat v0) (N.to_nat (h + s)))); [|lia].
-    apply nth_firstn_lt. lia.
-  - destruct (Nat.ltb_spec (N.to_nat i) (Nat.min (N.to_nat v0) (N.to_nat (h + s)))); [lia|].
-    destruct (N.ltb_spec i (h + s - 1)) as [B|B].
-    + destruct (Nat.ltb_spec (N.to_nat i) (Nat.min (N.to_nat v0) (N.to_nat (h + s)) + (N.to_nat (h + s) - S (N.to_nat v0)))); [|lia].
-      rewrite nth_skipn_add. f_equal. lia.
-    + destruct (Nat.ltb_spec (N.to_nat i) (Nat.min (N.to_nat v0) (N.to_nat (h + s)) + (N.to_nat (h + s) - S (N.to_nat v0)))); [lia|].
-      replace (N.to_nat i - Nat.min (N.to_nat v0) (N.to_nat (h + s)) - (N.to_nat (h + s) - S (N.to_nat v0)))%nat with 0%nat by lia.
-      reflexivity.
-Qed.
-
-Lemma scroll_length {A} (ls : list (list A)) (bl : list A) v0 :
-  length ls = N.to_nat (h + s) -> v0 < h + s ->
-  length (firstn (N.to_nat v0) ls ++ skipn (S (N.to_nat v0)) ls ++ [bl]) = N.to_nat (h + s).
-Proof.
-  intros L Hv. rewrite !app_length, firstn_length, skipn_length, L. cbn [length]. lia.
-Qed.
-
 Lemma linesrel_scroll d d' ls v0 :
   LinesRel d ls -> v0 + h = h + s ->
   (forall i j, i < h + s -> j < w ->
@@ -308,7 +281,7 @@ Lemma linesrel_scroll d d' ls v0 :
   LinesRel d' (firstn (N.to_nat v0) ls ++ skipn (S (N.to_nat v0)) ls ++ [blank_line w fg bg]).
 Proof.
   intros (L & LW & LC) Hv Hd.
-  pose proof (scroll_rows ls (blank_line w fg bg) v0 L ltac:(lia)) as Hrow.
+  pose proof (scroll_rows ls (blank_line w fg bg) (h + s) v0 L ltac:(lia)) as Hrow.
   split; [|split].
   - apply scroll_length; [assumption|lia].
   - intros i Hi. rewrite Hrow by assumption.
@@ -637,16 +610,6 @@ Proof.
 Qed.
 
 (** ---- the activation redraw ---- *)
-Lemma in_seqN x a n : In x (seqN a n) -> a <= x < a + n.
-Proof.
-  unfold seqN. rewrite in_map_iff. intros (k & <- & Hk). apply in_seq in Hk. lia.
-Qed.
-
-Lemma seqN_cons a n : 1 <= n -> seqN a n = a :: seqN (a + 1) (n - 1).
-Proof.
-  intros H. replace n with (N.succ (n - 1)) at 1 by lia. rewrite seqN_S. f_equal. f_equal. lia.
-Qed.
-
 Lemma redraw_row_ok row y : row < h + s ->
   forall n x0 v, length (data v) = N.to_nat size -> 1 <= x0 -> x0 - 1 + N.of_nat n <= w ->
   redraw_row v (seqN x0 (N.of_nat n)) (off row (x0 - 1)) y =
